@@ -314,7 +314,9 @@ class PdoMap:
         if can_id == self.cob_id and not is_transmitting:
             with self.receive_condition:
                 self.is_received = True
-                self.data = data
+                # The same payload object is handed to every subscriber of this
+                # COB-ID, keep a private copy that can be modified in place
+                self.data = bytearray(data)
                 if self.timestamp is not None:
                     self.period = timestamp - self.timestamp
                 self.timestamp = timestamp
